@@ -21,6 +21,7 @@ macro_rules! dispatch {
       "C03" => $f::<props::c03::C03>($($arg),*),
       "C04" => $f::<props::c04::C04>($($arg),*),
       "C05" => $f::<props::c05::C05>($($arg),*),
+      "C06" => $f::<props::c06::C06>($($arg),*),
       "C11" => $f::<props::c11::C11>($($arg),*),
       "C12" => $f::<props::c12::C12>($($arg),*),
       "C13" => $f::<props::c13::C13>($($arg),*),
@@ -40,6 +41,7 @@ fn main() {
   if args.len() < 2 { eprintln!("usage: mechcheck run|worker|replay|probe ..."); std::process::exit(3); }
   match args[1].as_str() {
     "probe" => probe(),
+    "compileprobe" => compileprobe(),
     "fsmprobe" => fsmprobe(),
     "run" => {
       let id = args[2].clone();
@@ -56,7 +58,7 @@ fn main() {
       let g = |n: &str| arg(&args, n).and_then(|s| s.parse::<u64>().ok()).unwrap_or(0);
       let mut replays = vec![];
       for (i, a) in args.iter().enumerate() { if a == "--replay-file" { if let Some(p) = args.get(i + 1) { replays.push(p.clone()); } } }
-      let a = WorkerArgs { tier, seed: g("--seed"), index: g("--index") as u32, of: g("--of").max(1) as u32, skip_fixed: g("--skip-fixed") as u32, skip_rand: g("--skip-rand") as u32, replays };
+      let a = WorkerArgs { tier, seed: g("--seed"), index: g("--index") as u32, of: g("--of").max(1) as u32, skip_fixed: g("--skip-fixed") as u32, skip_rand: g("--skip-rand") as u32, replays, skip_replays: g("--skip-replays") as u32, skip_pins: g("--skip-pins") as u32 };
       dispatch!(id.as_str(), worker_main, a);
     }
     "replay" => {
@@ -111,6 +113,30 @@ fn fsmprobe() {
       let o = sess.run(snip);
       println!("SRC {:?}\n  => {} {:?}", snip, o.show(), t.elapsed());
       for e in sess.intrp.trace_events() { if e.channel.as_deref() == Some("fsm") { println!("    [{}] {}", e.label.clone().unwrap_or_default(), e.message.chars().take(150).collect::<String>()); } }
+    }
+  }).unwrap();
+  h.join().unwrap();
+}
+
+/// interpret + compile + load + run in a fresh interpreter, for the one snippet on stdin
+fn compileprobe() {
+  use std::io::Read;
+  use mech_core::*;
+  mech::install_quiet_panic_hook();
+  let mut s = String::new();
+  std::io::stdin().read_to_string(&mut s).unwrap();
+  let h = std::thread::Builder::new().stack_size(32 << 20).spawn(move || {
+    match props::c06::compile_program(s.trim()) {
+      props::c06::Stage::Discard(w) => println!("interpret: {}", w),
+      props::c06::Stage::CompileErr(k) => println!("compile error: {}", k),
+      props::c06::Stage::CompilePanic(m) => println!("compile panic: {}", m),
+      props::c06::Stage::Bytes(b, r, names) => {
+        println!("interpret = {} ; {} bytes ; plan {:?}", r.show(), b.len(), names);
+        match ParsedProgram::from_bytes(&b) {
+          Err(e) => println!("load error {}", e.kind_name()),
+          Ok(p) => { let mut f = mech_interpreter::Interpreter::new(1); match std::panic::catch_unwind(std::panic::AssertUnwindSafe(|| f.run_program(&p))) { Err(e) => println!("run panic {}", mech::panic_msg(e)), Ok(Err(e)) => println!("run error {}", e.kind_name()), Ok(Ok(v)) => println!("run = {}", rval::from_value(&v).show()) } }
+        }
+      }
     }
   }).unwrap();
   h.join().unwrap();
